@@ -505,6 +505,8 @@ class _Gen:
             kinds += ["loop", "loop", "foreach", "until"]
         if top:
             kinds += ["newarr", "newreg", "flush", "flush", "flush", "flush"]
+            if self.o.get("allow_regm", True):
+                kinds += ["measpair"]
         k = self.pick(kinds)
         if self.o.get("only") and k not in ("newarr", "newreg", "flush"):
             k = self.pick(self.o["only"])
@@ -530,6 +532,29 @@ class _Gen:
         self.n_arr += 1
         self.arrays[aid] = {"len": n, "defined": all(v is not None for v in init)}
         return [["newarr", aid, init]]
+
+    def s_measpair(self, scope, depth):
+        """two (or three) fresh qubits measured into registers in one segment, the first outcome used afterwards"""
+        k = min(self.budget_left(scope), self.pick([2, 2, 3]))
+        if k < 2:
+            return []
+        out = []
+        rids = []
+        for _ in range(k):
+            q = self.n_q
+            self.n_q += 1
+            out.append(["newq", q])
+            if self.chance(1, 2):
+                out.append(["gate", self.pick(GATES1), [q]])
+            rid = self.n_reg
+            self.n_reg += 1
+            self.regs.append(rid)
+            rids.append(rid)
+            out.append(["meas", q, ["newregm", rid], False])
+        t = self.readable_ref(scope, want_future=True)
+        if t is not None and t[0] in ("elem",):
+            out.append(["add", t, ["reg", rids[0]], None])
+        return out
 
     def s_newreg(self, scope, depth):
         if not self.o.get("allow_newreg", True):
@@ -631,14 +656,18 @@ class _Gen:
 
     def s_foreach(self, scope, depth):
         cands = [aid for aid, a in self.arrays.items() if a["defined"] and not a.get("implicit")]
-        if not cands:
+        holes = [aid for aid, a in self.arrays.items() if not a["defined"] and not a.get("implicit")]
+        use_holes = bool(holes) and (not cands or self.chance(1, 3)) and self.o.get("foreach_undefined", True)
+        if not cands and not use_holes:
             return []
-        aid = self.pick(cands)
-        wi = self.chance(1, 2)
+        aid = self.pick(holes if use_holes else cands)
+        wi = self.chance(1, 2) or use_holes
         lid = self.n_loop
         self.n_loop += 1
         inner = self._inner(scope, in_loop=True)
-        inner["fvals"].append(lid)
+        if not use_holes:
+            # over an array with undefined cells only the index is usable: the element handle is never read
+            inner["fvals"].append(lid)
         if wi:
             inner["loop_hi"][lid] = self.arrays[aid]["len"]
         body = self.block(inner, depth + 1)
